@@ -387,7 +387,7 @@ class Inliner:
                 if res is not None:
                     return res
         # a loop over a constant table of rows (dispatch table): one copy of the body per row
-        if isinstance(st, ast.For) and not st.orelse:
+        if isinstance(st, ast.For):
             res = self.unroll_table_loop(st, module, cls)
             if res is not None:
                 return self.expand_block(res, module, cls, depth, stack)
@@ -451,8 +451,13 @@ class Inliner:
         if not all(len(r.elts) == k for r in rows):
             return None
         names = [t.id for t in loop.target.elts]
+        # search form:  for row in TABLE: if COND: STMTS; break   [else: ELSE]   ->   if C1: S1 elif C2: S2 ... else: ELSE
+        search = (len(loop.body) == 1 and isinstance(loop.body[0], ast.If) and not loop.body[0].orelse and loop.body[0].body and isinstance(loop.body[0].body[-1], ast.Break)
+                  and not any(isinstance(n, (ast.Break, ast.Continue)) for s0 in loop.body[0].body[:-1] for n in ast.walk(s0)))
+        if loop.orelse and not search:
+            return None
         for n in ast.walk(ast.Module(body=loop.body, type_ignores=[])):
-            if isinstance(n, (ast.Break, ast.Continue)):
+            if isinstance(n, (ast.Break, ast.Continue)) and not search:
                 return None
             if isinstance(n, ast.Name) and n.id in names and isinstance(n.ctx, (ast.Store, ast.Del)):
                 return None
@@ -481,6 +486,14 @@ class Inliner:
                 ast.fix_missing_locations(nb)
                 _set_module(nb, getattr(loop, "_module", None))
                 out.append(nb)
+        if search:
+            # chain the per-row ifs; the trailing `break` of each body is dropped; the for-else becomes the final else
+            chain_else = [clone(x) for x in loop.orelse]
+            for nb in reversed(out):
+                nb.body = nb.body[:-1] or [_pass(nb)]
+                nb.orelse = chain_else
+                chain_else = [nb]
+            out = chain_else
         self.inlined_calls.append(f"<table-loop> for {ast.unparse(loop.target)} in {ast.unparse(loop.iter)} unrolled over {len(rows)} rows")
         return out
 
